@@ -225,6 +225,7 @@ func TestC18EventLog(t *testing.T) {
 		}
 
 		nLines := rapid.IntRange(2, 8).Draw(t, "nLines")
+		manyDone := false // at most one burst of hundreds of repeats per case (every step is followed by a full comparison)
 		// filler of the lines: ASCII digits, 2-, 3- and 4-byte characters, a lone continuation byte
 		unit := rapid.SampledFrom([]string{"", "", "\u00e9", "\u20ac", "\U0001F600", "\x80", "a\u20ac"}).Draw(t, "unit")
 		if unit != "" {
@@ -246,7 +247,35 @@ func TestC18EventLog(t *testing.T) {
 					n = rapid.IntRange(0, 2*maxLine).Draw(t, "len")
 				}
 				line := mkLine(id, n, unit)
-				hist = append(hist, elStep{Op: "printf", Line: fmt.Sprintf("id%d/len%d", id, n)})
+				// now and then the same line is logged hundreds of times in a row (a
+				// line that repeats every few seconds for a day): its update history
+				// grows long, and the last update must still be the one that counts
+				reps := 1
+				if !manyDone && rapid.IntRange(0, 39).Draw(t, "manyRepeats") == 0 {
+					manyDone = true
+					reps = rapid.SampledFrom([]int{255, 256, 257, 300, 513}).Draw(t, "repeats")
+					ev.Label("c18:line-repeated-hundreds-of-times")
+				}
+				asArg := strings.Contains(line, "%") || rapid.Bool().Draw(t, "asArg")
+				hist = append(hist, elStep{Op: "printf", Line: fmt.Sprintf("id%d/len%d x%d", id, n, reps)})
+				for rep := 1; rep < reps; rep++ {
+					key, stored, _, fresh, amb := m.printf(line)
+					if amb {
+						ambiguousEver = true
+					}
+					guard("Printf", func() {
+						if asArg {
+							l.Printf("%s", line)
+						} else {
+							l.Printf(line)
+						}
+					})
+					if stored {
+						sync(true, key, fresh)
+					} else {
+						sync(false, "", false)
+					}
+				}
 				key, stored, evicted, fresh, amb := m.printf(line)
 				if amb {
 					ambiguousEver = true
@@ -258,7 +287,7 @@ func TestC18EventLog(t *testing.T) {
 					ev.Label("c18:printf-evicts")
 				}
 				guard("Printf", func() {
-					if strings.Contains(line, "%") || rapid.Bool().Draw(t, "asArg") {
+					if asArg {
 						l.Printf("%s", line)
 					} else {
 						l.Printf(line)
